@@ -377,10 +377,88 @@ def check_equiv(recipe, ctx):
     ctx.outcome(outs[0])
 
 
+# ---------------------------------------------------------------------------
+# objects created by Assign(missing=...) inside Glommer.glom are handled by THAT Glommer's registry
+
+class Box(object):
+    __slots__ = ('store',)
+
+    def __init__(self):
+        self.store = {}
+
+    def __repr__(self):
+        return 'Box(%r)' % (self.store,)
+
+
+def enum_missing(tier):
+    for depth in (1, 2, 3):
+        for glob_reg in (False, True):
+            yield {'depth': depth, 'global_dict_handler': glob_reg}
+
+
+def check_missing(recipe, ctx):
+    """run in a forked child: registers on the module-level registry"""
+    def body():
+        log = []
+        g = Glommer()
+        g.register(Box, get=lambda o, k: o.store[k], assign=lambda o, k, v: (log.append(('box-assign', k)), o.store.__setitem__(k, v)))
+        if recipe['global_dict_handler']:
+            glom.register(dict, assign=lambda o, k, v: (log.append(('GLOBAL-dict-assign', k)), o.__setitem__(k, v)))
+        path = '.'.join('s%d' % i for i in range(recipe['depth'] + 1))
+        root = Box()
+        g.glom(root, Assign(path, 'leaf', missing=Box))
+        want = [('box-assign', 's%d' % i) for i in range(recipe['depth'], -1, -1)]
+        if log != want:
+            return ('glommer-registry-bypassed', 'Glommer with an assign handler for Box: Assign(%r, missing=Box) ran %r, expected %r; result %r'
+                    % (path, log, want, root))
+        cur = root
+        for i in range(recipe['depth'] + 1):
+            cur = cur.store['s%d' % i]
+        if cur != 'leaf':
+            return ('glommer-registry-bypassed', 'value not stored: %r' % (root,))
+        # dicts created by missing=dict inside a Glommer must not use a handler registered globally afterwards
+        del log[:]
+        t = {}
+        g.glom(t, Assign('a.b.c', 1, missing=dict))
+        if any(x[0].startswith('GLOBAL') for x in log):
+            return ('isolation', 'a module-level registration ran inside Glommer.glom: %r' % (log,))
+        if t != {'a': {'b': {'c': 1}}}:
+            return ('wrong-effect', repr(t))
+        return None
+    r, w = os.pipe()
+    pid = os.fork()
+    if pid == 0:
+        try:
+            os.close(r)
+            try:
+                res = body()
+            except BaseException as e:
+                res = ('unexpected-exception', '%s: %s' % (type(e).__name__, e))
+            os.write(w, json.dumps(res).encode('utf8'))
+            os.close(w)
+        finally:
+            os._exit(0)
+    os.close(w)
+    data = b''
+    while True:
+        c = os.read(r, 65536)
+        if not c:
+            break
+        data += c
+    os.close(r)
+    os.waitpid(pid, 0)
+    res = json.loads(data.decode('utf8') or 'null')
+    ctx.nontrivial(True)
+    if res:
+        raise Mismatch(res[0], res[1])
+    ctx.outcome(recipe)
+
+
 CLASSIFIERS = {'F14-duck-type-shadowing': is_f14}
 
 SUBS = [
     Sub('history', check, gen=gen, quick=600, thorough=2500,
         floors={'registry-global': 0.1, 'registry-bare': 0.1}),
     Sub('equiv', check_equiv, enum=enum_equiv),
+    Sub('missing', check_missing, enum=enum_missing),
 ]
